@@ -524,7 +524,7 @@ func TestC02Multi(t *testing.T) {
 // TestC02Exhaustive enumerates every single fault over a few transcripts.
 func TestC02Exhaustive(t *testing.T) {
 	seed := kit.Seed()
-	nT := kit.Scale(5, 12)
+	nT := kit.Scale(5, 32)
 	bad := 0
 	report := func(c Case, v string) {
 		if bad < 6 {
